@@ -1,5 +1,7 @@
 package main
 
+import "sort"
+
 // Ground instantiation of universally quantified hypotheses at the array indices that occur in the query.
 // Every added formula is an instance of an asserted universal, so adding it is sound; it spares the solvers
 // the E-matching modulo arithmetic that they are poor at (select(A, base+i) against select(A, idx)).
@@ -108,7 +110,12 @@ func (x *Exec) instantiate(as []*Term, goal *Term) []*Term {
 				bv := qp.q.Bound[0]
 				body := qp.q.Args[0]
 				for _, p := range patternsOf(body, bv) {
+					idxs := make([]*Term, 0, len(sel[p.arr]))
 					for idx := range sel[p.arr] {
+						idxs = append(idxs, idx)
+					}
+					sort.Slice(idxs, func(i, j int) bool { return idxs[i].id < idxs[j].id }) // deterministic scripts
+					for _, idx := range idxs {
 						if containsBound(idx) {
 							continue
 						}
